@@ -16,7 +16,8 @@ BOUNDS = {"quick": "LV(4,3) x {bool,int8,int64,uint8,uint64,float64} x 3 pattern
                    "sort (method), unique, unique+counts, diff n=0..4}; operand unchanged",
           "thorough": "LV(5,3) u LV(3,5), plus int16/int32/float32, diff n=0..6"}
 DT_Q = ["bool", "int8", "int64", "uint8", "uint64", "float64"]
-OPS = ["cumsum_m", "cumsum_f", "add.acc", "sub.acc", "xor.acc", "sort_m", "sort_default", "unique", "unique_c", "diff_default"]
+OPS = ["cumsum_m", "cumsum_f", "add.acc", "sub.acc", "xor.acc", "sort_m", "sort_default", "sort_axis1", "cumsum_axis1", "unique", "unique_c", "unique_axis1",
+       "diff_default", "diff_axis1", "add.acc_axis1"]
 
 
 def shards(tier):
@@ -71,10 +72,17 @@ def check(case, acc):
             acc.feature("duplicates_across_row_boundary")
     ra = RaggedArray(flat.copy(), list(lens))
     lenient_refusal = False
-    if op in ("cumsum_m", "cumsum_f"):
+    if op in ("cumsum_m", "cumsum_f", "cumsum_axis1"):
         ref = lambda r: np.cumsum(r)
-        call = (lambda: ra.cumsum(axis=-1)) if op == "cumsum_m" else (lambda: np.cumsum(ra, axis=-1))
+        call = {"cumsum_m": lambda: ra.cumsum(axis=-1), "cumsum_f": lambda: np.cumsum(ra, axis=-1), "cumsum_axis1": lambda: ra.cumsum(axis=1)}[op]
         lenient_refusal = np.dtype(dt).kind in "bf"
+    elif op == "add.acc_axis1":
+        acc.feature("accumulate")
+        ref = lambda r: np.add.accumulate(r)
+        call = lambda: np.add.accumulate(ra, axis=1)
+    elif op == "diff_axis1":
+        ref = lambda r: np.diff(r, n=2)
+        call = lambda: np.diff(ra, n=2, axis=1)
     elif op.endswith(".acc"):
         acc.feature("accumulate")
         u = {"add.acc": np.add, "sub.acc": np.subtract, "xor.acc": np.bitwise_xor}[op]
@@ -86,6 +94,12 @@ def check(case, acc):
     elif op == "sort_default":
         ref = lambda r: np.sort(r)
         call = lambda: ra.sort()
+    elif op == "sort_axis1":
+        ref = lambda r: np.sort(r)
+        call = lambda: ra.sort(axis=1)
+    elif op == "unique_axis1":
+        ref = lambda r: np.unique(r)
+        call = lambda: np.unique(ra, axis=1)
     elif op == "diff_default":
         ref = lambda r: np.diff(r)
         call = lambda: np.diff(ra, axis=-1)
